@@ -30,8 +30,10 @@ def tree_shape(ctx):
         m = re.search(r"def %s : List String := \[(.*?)\]" % name, txt, re.S)
         return re.findall(r'"([^"]*)"', m.group(1)) if m else []
     shape = {"barrier": fact("topicExitHead")[:3] == ["Lock", "CompareAndSwapInt32", "Unlock"],
-             "anslock": fact("reqCalls")[:3] == ["RLock", "RUnlock", "popInFlightMessage"] and
-                        fact("touchCalls")[:3] == ["RLock", "RUnlock", "popInFlightMessage"],
+             "anslock": (fact("reqCalls")[:3] == ["RLock", "RUnlock", "popInFlightMessage"] or
+                         fact("reqCalls")[:5] == ["RLock", "RUnlock", "RLock", "RUnlock", "popInFlightMessage"]) and
+                        (fact("touchCalls")[:3] == ["RLock", "RUnlock", "popInFlightMessage"] or
+                         fact("touchCalls")[:5] == ["RLock", "RUnlock", "RLock", "RUnlock", "popInFlightMessage"]),
              "gettopicguard": fact("getTopicExitGuard") == ["assign exiting := atomic.LoadInt32(&n.isExiting) == 1", "if exiting"],
              "pumpjoin": fact("tcpCloseCalls") == ["Range", "Wait"] and
                          fact("ioLoopJoin") == ["assign messagePumpDoneChan := make(chan struct{})"]}
